@@ -39,12 +39,12 @@ claim("C06", "histsim", "exploration",
       "DESIGN §3 C06")
 claim("C07", "concsim", "exploration",
       SIM + "plan-driven baton scheduler over an AST-instrumented copy of the working tree (preemption possible before every statement; lock acquisition simulated), burst preemptions + re-entrant operator calls at writer/handler seams, history checked for linearizability (porcupine) against the sequential real code; -race stress companion for the data-race clause",
-      "Each run executes 2..5 tasks (requests chosen to discriminate the states in play; Reconfigure/SetDebug/Config/Reconfigure(Config())/rejected Reconfigure) under a seeded schedule with 0..4 burst preemptions placed uniformly over the measured schedule points of a victim operation; the recorded invoke/return history must be linearizable w.r.t. the same code run sequentially; deadlock and panics are violations. Schedules are sampled, not enumerated: exploration. The data-race clause is decided by a separate free-running -race stress, which is observation of real executions and is labelled as such.",
+      "Each run executes 2..5 tasks (requests chosen to discriminate the states in play; Reconfigure/SetDebug/Config/Reconfigure(Config())/rejected Reconfigure) under a seeded schedule with 0..4 burst preemptions placed uniformly over the measured schedule points of a victim operation; the recorded invoke/return history must be linearizable w.r.t. the same code run sequentially; deadlock and panics are violations. A quarter of the runs belong to enumerating sweep blocks: 192 runs share one small scenario and run i preempts the victim operation at its i-th schedule point, so for the sampled scenarios "the other party acting at every point of the operation" is enumerated completely. Scenarios and all other schedules are sampled: exploration. The data-race clause is decided by a separate free-running -race stress, which is observation of real executions and is labelled as such.",
       "Trusted: the instrumenter (syntactic; the repository's tests are run on the instrumented copy with hooks off on every check), porcupine v1.3.0, Go's race detector. Assumes the library starts no goroutines. Histories are short (<= ~25 operations).",
       "DESIGN §3 C07")
 claim("C08", "histsim", "exploration",
       SIM + "seeded call histories with rejected-Reconfigure faults (valid configuration different from the current one + 1..4 planted documented violations) at arbitrary positions; differential oracle before/after",
-      "2..10-step histories from passthrough and configured states with debug on/off; at every rejected Reconfigure the error must be non-nil and the probe suite (incl. probes derived from the rejected configuration), Config() and the debug probe must be identical before and after. Seeded sampling: exploration.",
+      "2..10-step histories from passthrough and configured states with debug on/off; at every rejected Reconfigure the error must be non-nil and the probe suite (incl. probes derived from the rejected configuration), Config() and the debug probe must be identical before and after; a shadow twin that lives through the same history without the rejected calls must stay indistinguishable (latent traces that only a later successful call reveals). Seeded sampling: exploration.",
       "The violation catalogue (12 kinds, ~90 literal values) contains only cases the Config documentation calls prohibited. Differential oracle; behaviour outside the probe suite is not observed.",
       "DESIGN §3 C08")
 claim("C09", "histsim", "exploration",
@@ -64,6 +64,6 @@ claim("C11", "histsim", "exploration",
       "DESIGN §3 C11")
 claim("C12", "histsim", "exploration",
       SIM + "several middlewares alive at once under memory-mutation faults (scribbling over every slice, incl. spare capacity, reachable from Config arguments, Config() results, request and response headers visible to the wrapped handler) and duplicated/foreign requests; differential oracle against a baseline recorded before any fault",
-      "5..40-step histories over 1..3 middlewares (optionally sharing the very same Config value); after every step all probe suites, in a plan-derived permuted order, and Config() must equal the pre-fault baseline. A violation that only reproduces after the preceding runs of its worker process (state leaking through process-global memory) is reported with a worker-prefix replay. Seeded sampling: exploration.",
+      "5..40-step histories over 1..3 middlewares (optionally sharing the very same Config value); after every step all probe suites, in a plan-derived permuted order, and Config() must equal their reference (the pre-fault baseline; after a reconfiguration to another configuration or with an in-place edited Config: a fresh middleware of that configuration). A violation that only reproduces after the preceding runs of its worker process (state leaking through process-global memory) is reported with a worker-prefix replay. Seeded sampling: exploration.",
       "Differential oracle. An outer party scribbling over a finished preflight response (which aliases package-level singletons by design) is outside the property and not injected.",
       "DESIGN §3 C12")
